@@ -41,7 +41,8 @@ LInit(idleUs, lingers) ==
       lastRcv  |-> [s \in Sides |-> 0],     \* last datagram delivered to s
       lastSnd  |-> [s \in Sides |-> 0],     \* last datagram s handed to the network
       doneAt   |-> [s \in Sides |-> -1],    \* when every application task of s had completed
-      ok       |-> TRUE, why |-> "" ]
+      hasConn  |-> [s \in Sides |-> s = "cli"],  \* the endpoint has a connection object with application tasks on it
+      ok |-> TRUE, why |-> "", at |-> 0 ]
 
 Fail(st, why) == IF st.ok THEN [st EXCEPT !.ok = FALSE, !.why = why] ELSE st
 Get(f, x, d) == IF x \in DOMAIN f THEN f[x] ELSE d
@@ -79,6 +80,7 @@ PacketSent(st, side, carriesData, t) ==
 
 NetSent(st, side, t) == [st EXCEPT !.lastSnd[side] = t]
 NetDelivered(st, side, t) == [st EXCEPT !.lastRcv[side] = t]
+Accepted(st, side) == [st EXCEPT !.hasConn[side] = TRUE]
 TasksDone(st, side, t) == [st EXCEPT !.doneAt[side] = t]
 
 \* end of the run
@@ -87,9 +89,9 @@ Final(st, cliDone, srvDone, tEnd) ==
         lateLocal == {s \in Sides : st.closeAt[s] >= 0 /\ (st.doneAt[s] < 0 \/ st.doneAt[s] > st.closeAt[s] + PromptUs)}
         \* the peer is told by CONNECTION_CLOSE, or, if that is lost, by its idle timer
         peerBound == fc + st.idle + SlackUs
-        latePeer == {s \in Sides : fc >= 0 /\ st.closeAt[s] < 0 /\ st.idle > 0 /\ (st.doneAt[s] < 0 \/ st.doneAt[s] > peerBound)}
+        latePeer == {s \in Sides : fc >= 0 /\ st.closeAt[s] < 0 /\ st.idle > 0 /\ st.hasConn[s] /\ (st.doneAt[s] < 0 \/ st.doneAt[s] > peerBound)}
         early == {s \in Sides : st.lingers /\ st.idle > 0 /\ st.termAt[s] >= 0 /\ fc < 0 /\ st.termAt[s] + 20000 < st.lastRcv[s] + st.idle}
-        lateIdle == {s \in Sides : st.lingers /\ st.idle > 0 /\ fc < 0
+        lateIdle == {s \in Sides : st.lingers /\ st.idle > 0 /\ fc < 0 /\ st.hasConn[s]
                                     /\ (st.termAt[s] < 0 \/ st.termAt[s] > Max(st.lastRcv[s], st.lastSnd[s]) + st.idle + SlackUs)}
     IN IF lateLocal # {} THEN Fail(st, "operations pending on the closing endpoint did not complete promptly after close (C17)")
        ELSE IF latePeer # {} THEN Fail(st, "operations pending on the peer of a closed connection did not complete within idle timeout + draining (C17)")
